@@ -2,10 +2,10 @@
 C01, stage 2a: ARBITRARY programs (nested calls, diamonds, any parameter shape), histories in which
 every source operation precedes every call ("single epoch": calls, lookups, retain / clear /
 never-gc and collections may be interleaved freely after the last write).  `exec` simulates the
-strict from-scratch evaluator `evalSS` fuel for fuel, the dependency stack playing the role of
-`evalSS`'s path (cycle check = `assert_no_cycles`).
+from-scratch evaluator `evalS` fuel for fuel, the dependency stack playing the role of
+`evalS`'s path (cycle check = `assert_no_cycles`).
 
-Invariant (`Mid`): every stored node was verified in the current epoch and holds the strict
+Invariant (`Mid`): every stored node was verified in the current epoch and holds the
 big-step value of its call under the current sources.
 -/
 import IsoVerif.Lemmas.PicoSem
@@ -54,29 +54,29 @@ theorem Mid.regDep {P : Prog} {s : Storage} (h : Mid P s) (n : DepNode) (tu : Na
 /-- what `exec` does for a call that evaluates strictly from scratch (with the stack as path) -/
 def ExecSim (P : Prog) (n : Nat) : Prop :=
   ∀ (s : Storage) (id : NodeId) (v : Nat), Mid P s →
-    evalSS n P s.srcs s.maps (stackIds s) id = .ok v →
+    evalS n P s.srcs s.maps (stackIds s) id = .ok v →
     ∃ s' b r, exec n P s id = (s', .ok b) ∧ Mid P s' ∧ Same s s' ∧ alookup s'.derived id = some r ∧ r.val = v
 
 theorem callVia_sim {P : Prog} {n : Nat} (hex : ExecSim P n) (s : Storage) (id : NodeId) (v : Nat) (hm : Mid P s)
-    (hv : evalSS n P s.srcs s.maps (stackIds s) id = .ok v) :
+    (hv : evalS n P s.srcs s.maps (stackIds s) id = .ok v) :
     ∃ s', callVia (exec n P) s id = (s', .ok v) ∧ Mid P s' ∧ Same s s' := by
   obtain ⟨s', b, r, he, hm', hs, hl, hval⟩ := hex s id v hm hv
   refine ⟨s', ?_, hm', hs⟩
   simp only [callVia, he, hl, hval]
 
-/-- bodies: `evalE` with the memoised call simulates `evalPS` with the from-scratch call -/
+/-- bodies: `evalE` with the memoised call simulates `evalP` with the from-scratch call -/
 theorem evalE_sim {P : Prog} {n : Nat} (hex : ExecSim P n) :
     ∀ (e : Expr) (a : Nat) (s : Storage) (v : Nat), Mid P s →
-      evalPS (evalSS n P s.srcs s.maps (stackIds s)) P s.srcs s.maps e a = .ok v →
+      evalP (evalS n P s.srcs s.maps (stackIds s)) P s.srcs s.maps e a = .ok v →
       ∃ s', evalE (callVia (exec n P)) P e a s = (s', .ok v) ∧ Mid P s' ∧ Same s s' := by
   intro e
   induction e with
-  | lit k => intro a s v hm h; simp only [evalPS] at h; cases h; exact ⟨s, rfl, hm, Same.refl s⟩
-  | param => intro a s v hm h; simp only [evalPS] at h; cases h; exact ⟨s, rfl, hm, Same.refl s⟩
+  | lit k => intro a s v hm h; simp only [evalP] at h; cases h; exact ⟨s, rfl, hm, Same.refl s⟩
+  | param => intro a s v hm h; simp only [evalP] at h; cases h; exact ⟨s, rfl, hm, Same.refl s⟩
   | src k ih =>
     intro a s v hm h
-    simp only [evalPS] at h
-    cases hk : evalPS (evalSS n P s.srcs s.maps (stackIds s)) P s.srcs s.maps k a with
+    simp only [evalP] at h
+    cases hk : evalP (evalS n P s.srcs s.maps (stackIds s)) P s.srcs s.maps k a with
     | panic p => simp [hk] at h
     | ok kv =>
       simp only [hk] at h
@@ -90,87 +90,89 @@ theorem evalE_sim {P : Prog} {n : Nat} (hex : ExecSim P n) :
         rw [hs1.srcs, hl]
   | sing i =>
     intro a s v hm h
-    simp only [evalPS] at h
+    simp only [evalP] at h
     cases hl : alookup s.srcs (.sing i) with
-    | none => simp [hl] at h
+    | none =>
+      simp only [hl] at h; cases h
+      exact ⟨regDep s (.absent (.sing i)) s.epoch, by simp only [evalE, hl], hm.regDep _ _, regDep_same _ _ _⟩
     | some nd =>
       simp only [hl] at h; cases h
       exact ⟨regDep s (.source (.sing i)) nd.tu, by simp only [evalE, hl], hm.regDep _ _, regDep_same _ _ _⟩
   | trk i =>
     intro a s v hm h
-    simp only [evalPS] at h
+    simp only [evalP] at h; cases h
     cases hl : alookup s.srcs (.ctr i) with
-    | none => simp [hl] at h
+    | none =>
+      exact ⟨regDep s (.absent (.ctr i)) s.epoch, by simp only [evalE, hl], hm.regDep _ _, regDep_same _ _ _⟩
     | some nd =>
-      simp only [hl] at h; cases h
       exact ⟨regDep s (.source (.ctr i)) nd.tu, by simp only [evalE, hl], hm.regDep _ _, regDep_same _ _ _⟩
   | call f e ih =>
     intro a s v hm h
-    simp only [evalPS] at h
-    cases he : evalPS (evalSS n P s.srcs s.maps (stackIds s)) P s.srcs s.maps e a with
+    simp only [evalP] at h
+    cases he : evalP (evalS n P s.srcs s.maps (stackIds s)) P s.srcs s.maps e a with
     | panic p => simp [he] at h
     | ok av =>
       simp only [he] at h
       obtain ⟨s1, he1, hm1, hs1⟩ := ih a s av hm he
-      have hv : evalSS n P s1.srcs s1.maps (stackIds s1) (nodeOf P f av) = .ok v := by
+      have hv : evalS n P s1.srcs s1.maps (stackIds s1) (nodeOf P f av) = .ok v := by
         rw [hs1.srcs, hs1.maps, hs1.ids]; exact h
       obtain ⟨s2, hc, hm2, hs2⟩ := callVia_sim hex s1 _ v hm1 hv
       exact ⟨s2, by simp only [evalE, he1, hc], hm2, hs1.trans hs2⟩
   | add x y ihx ihy =>
     intro a s v hm h
-    simp only [evalPS] at h
-    cases hx : evalPS (evalSS n P s.srcs s.maps (stackIds s)) P s.srcs s.maps x a with
+    simp only [evalP] at h
+    cases hx : evalP (evalS n P s.srcs s.maps (stackIds s)) P s.srcs s.maps x a with
     | panic p => simp [hx] at h
     | ok xv =>
       simp only [hx] at h
-      cases hy : evalPS (evalSS n P s.srcs s.maps (stackIds s)) P s.srcs s.maps y a with
+      cases hy : evalP (evalS n P s.srcs s.maps (stackIds s)) P s.srcs s.maps y a with
       | panic p => simp [hy] at h
       | ok yv =>
         simp only [hy] at h; cases h
         obtain ⟨s1, he1, hm1, hs1⟩ := ihx a s xv hm hx
-        have hy' : evalPS (evalSS n P s1.srcs s1.maps (stackIds s1)) P s1.srcs s1.maps y a = .ok yv := by
+        have hy' : evalP (evalS n P s1.srcs s1.maps (stackIds s1)) P s1.srcs s1.maps y a = .ok yv := by
           rw [hs1.srcs, hs1.maps, hs1.ids]; exact hy
         obtain ⟨s2, he2, hm2, hs2⟩ := ihy a s1 yv hm1 hy'
         exact ⟨s2, by simp only [evalE, he1, he2], hm2, hs1.trans hs2⟩
   | eq x y ihx ihy =>
     intro a s v hm h
-    simp only [evalPS] at h
-    cases hx : evalPS (evalSS n P s.srcs s.maps (stackIds s)) P s.srcs s.maps x a with
+    simp only [evalP] at h
+    cases hx : evalP (evalS n P s.srcs s.maps (stackIds s)) P s.srcs s.maps x a with
     | panic p => simp [hx] at h
     | ok xv =>
       simp only [hx] at h
-      cases hy : evalPS (evalSS n P s.srcs s.maps (stackIds s)) P s.srcs s.maps y a with
+      cases hy : evalP (evalS n P s.srcs s.maps (stackIds s)) P s.srcs s.maps y a with
       | panic p => simp [hy] at h
       | ok yv =>
         simp only [hy] at h; cases h
         obtain ⟨s1, he1, hm1, hs1⟩ := ihx a s xv hm hx
-        have hy' : evalPS (evalSS n P s1.srcs s1.maps (stackIds s1)) P s1.srcs s1.maps y a = .ok yv := by
+        have hy' : evalP (evalS n P s1.srcs s1.maps (stackIds s1)) P s1.srcs s1.maps y a = .ok yv := by
           rw [hs1.srcs, hs1.maps, hs1.ids]; exact hy
         obtain ⟨s2, he2, hm2, hs2⟩ := ihy a s1 yv hm1 hy'
         exact ⟨s2, by simp only [evalE, he1, he2], hm2, hs1.trans hs2⟩
   | ite c t e ihc iht ihe =>
     intro a s v hm h
-    simp only [evalPS] at h
-    cases hc : evalPS (evalSS n P s.srcs s.maps (stackIds s)) P s.srcs s.maps c a with
+    simp only [evalP] at h
+    cases hc : evalP (evalS n P s.srcs s.maps (stackIds s)) P s.srcs s.maps c a with
     | panic p => simp [hc] at h
     | ok cv =>
       simp only [hc] at h
       obtain ⟨s1, he1, hm1, hs1⟩ := ihc a s cv hm hc
       by_cases hz : cv ≠ 0
       · rw [if_pos hz] at h
-        have h' : evalPS (evalSS n P s1.srcs s1.maps (stackIds s1)) P s1.srcs s1.maps t a = .ok v := by
+        have h' : evalP (evalS n P s1.srcs s1.maps (stackIds s1)) P s1.srcs s1.maps t a = .ok v := by
           rw [hs1.srcs, hs1.maps, hs1.ids]; exact h
         obtain ⟨s2, he2, hm2, hs2⟩ := iht a s1 v hm1 h'
         exact ⟨s2, by simp only [evalE, he1]; rw [if_pos hz]; exact he2, hm2, hs1.trans hs2⟩
       · rw [if_neg hz] at h
-        have h' : evalPS (evalSS n P s1.srcs s1.maps (stackIds s1)) P s1.srcs s1.maps e a = .ok v := by
+        have h' : evalP (evalS n P s1.srcs s1.maps (stackIds s1)) P s1.srcs s1.maps e a = .ok v := by
           rw [hs1.srcs, hs1.maps, hs1.ids]; exact h
         obtain ⟨s2, he2, hm2, hs2⟩ := ihe a s1 v hm1 h'
         exact ⟨s2, by simp only [evalE, he1]; rw [if_neg hz]; exact he2, hm2, hs1.trans hs2⟩
   | half x ih =>
     intro a s v hm h
-    simp only [evalPS] at h
-    cases hx : evalPS (evalSS n P s.srcs s.maps (stackIds s)) P s.srcs s.maps x a with
+    simp only [evalP] at h
+    cases hx : evalP (evalS n P s.srcs s.maps (stackIds s)) P s.srcs s.maps x a with
     | panic p => simp [hx] at h
     | ok xv =>
       simp only [hx] at h; cases h
@@ -199,21 +201,21 @@ theorem pushTop_same (s : Storage) (id : NodeId) : Same s (pushTop s id) ∧ (pu
 theorem execSim (P : Prog) : ∀ n, ExecSim P n := by
   intro n
   induction n with
-  | zero => intro s id v _ h; simp [evalSS] at h
+  | zero => intro s id v _ h; simp [evalS] at h
   | succ n ih =>
     intro s id v hm hv
     rw [exec_succ]
     obtain ⟨hs0, hd0, hst0⟩ := pushTop_same s id
     have hm0 : Mid P (pushTop s id) := hm.of_same hs0 hd0
-    have hv0 : evalSS (n + 1) P (pushTop s id).srcs (pushTop s id).maps (stackIds (pushTop s id)) id = .ok v := by
+    have hv0 : evalS (n + 1) P (pushTop s id).srcs (pushTop s id).maps (stackIds (pushTop s id)) id = .ok v := by
       rw [hs0.srcs, hs0.maps, hs0.ids]; exact hv
     -- generalise the state after the push
-    suffices H : ∀ s0 : Storage, Mid P s0 → evalSS (n + 1) P s0.srcs s0.maps (stackIds s0) id = .ok v →
+    suffices H : ∀ s0 : Storage, Mid P s0 → evalS (n + 1) P s0.srcs s0.maps (stackIds s0) id = .ok v →
         ∃ s' b r, execBody n P s0 id = (s', .ok b) ∧ Mid P s' ∧ Same s0 s' ∧ alookup s'.derived id = some r ∧ r.val = v by
       obtain ⟨s', b, r, he, hm', hs', hl, hval⟩ := H _ hm0 hv0
       exact ⟨s', b, r, he, hm', hs0.trans hs', hl, hval⟩
     intro s0 hm0 hv0
-    obtain ⟨Rv, hbig⟩ := bigN_of_evalSS (n + 1) _ id v hv0
+    obtain ⟨Rv, hbig⟩ := bigN_of_evalS (n + 1) _ id v hv0
     unfold execBody
     cases hl : alookup s0.derived id with
     | some rev =>
@@ -224,7 +226,7 @@ theorem execSim (P : Prog) : ∀ n, ExecSim P n := by
       exact (BigE.det hR hbig).1
     | none =>
       simp only
-      simp only [evalSS] at hv0
+      simp only [evalS] at hv0
       have hnc : (stackIds s0).contains id = false := by
         cases hc : (stackIds s0).contains id with
         | false => rfl
@@ -337,7 +339,7 @@ theorem ColdInv.step_other {P : Prog} (fuel : Nat) {s : Storage} (h : ColdInv P 
 
 /-- a clean call keeps the invariant and answers the from-scratch value -/
 theorem ColdInv.step_call {P : Prog} (fuel : Nat) {s : Storage} (h : ColdInv P s) (f a v : Nat)
-    (hv : evalSS fuel P s.srcs s.maps [] (nodeOf P f a) = .ok v) :
+    (hv : evalS fuel P s.srcs s.maps [] (nodeOf P f a) = .ok v) :
     ColdInv P (step fuel P s (.call f a)).1 ∧
       ((step fuel P s (.call f a)).2 = .dead ∨ (step fuel P s (.call f a)).2 = .val v) := by
   unfold step
@@ -434,7 +436,7 @@ theorem runS_noCall_empty (fuel : Nat) (P : Prog) : ∀ (ops : List Op) (s : Sto
 theorem coldInv_runS {P : Prog} (fuel : Nat) : ∀ (ops : List Op) (s : Storage), ColdInv P s →
     (∀ op, op ∈ ops → op.isSrc = false) →
     (∀ p f a rest, ops = p ++ Op.call f a :: rest →
-        ∃ v, evalSS fuel P (runS fuel P s p).srcs (runS fuel P s p).maps [] (nodeOf P f a) = .ok v) →
+        ∃ v, evalS fuel P (runS fuel P s p).srcs (runS fuel P s p).maps [] (nodeOf P f a) = .ok v) →
     ColdInv P (runS fuel P s ops) := by
   intro ops
   induction ops with
@@ -484,9 +486,8 @@ theorem c01_stage2a {P : Prog} (fuel cap : Nat) (h1 h2 : List Op)
     have := hclean (h1 ++ q) f' a' (rest' ++ Op.call f a :: rest) (by rw [hh2, hq]; simp)
     unfold after at this; rw [runS_append] at this; exact this
   obtain ⟨v, hv⟩ := hclean pre f a rest hh
-  have hs := evalSS_ok_evalS P _ _ fuel [] _ v hv
   rcases (hcold.step_call fuel f a v hv).2 with hd | hval
   · exact Or.inl hd
-  · right; rw [hval]; unfold evalScratch; rw [hs]; rfl
+  · right; rw [hval]; unfold evalScratch; rw [hv]; rfl
 
 end IsoVerif.Pico
